@@ -141,6 +141,9 @@ func srvBody(o srvOpts) func() {
 		st.lis = lis
 		mux := diam.NewServeMux()
 		if o.defaultMux {
+			// a fresh package-level mux per execution: library state must not leak from one explored
+			// execution into the next (replays have to be deterministic)
+			diam.DefaultServeMux = diam.NewServeMux()
 			mux = diam.DefaultServeMux
 		}
 		st.mux = mux
